@@ -35,6 +35,7 @@ def rfft_grad(get_args, irfft_fun, ans, x, *args, **kwargs):
     check_no_repeated_axes(axes, anp.ndim(x))
     if s is None:
         s = [vs.shape[i] for i in axes]
+    s = [vs.shape[i] if n == -1 else n for n, i in zip(s, axes)]  # NumPy >= 2: -1 means the whole axis
     check_even_shape(s)
 
     # s is the full fft shape
@@ -58,6 +59,7 @@ def irfft_grad(get_args, rfft_fun, ans, x, *args, **kwargs):
     check_no_repeated_axes(axes, anp.ndim(x))
     if gs is None:
         gs = [gvs.shape[i] for i in axes]
+    gs = [gvs.shape[i] if n == -1 else n for n, i in zip(gs, axes)]  # NumPy >= 2: -1 means the whole axis
     check_even_shape(gs)
 
     # gs is the full fft shape
